@@ -32,6 +32,13 @@ def r1_nothing_dropped(ctx):
             r.ok(k, cfg.loc(body, j), "PushRemote payload depends on `local` and `remote`", work=len(sl.nodes))
         else:
             r.violation(k, cfg.loc(body, j), "the merged patch pushed to the remote does not contain both the local and the remote events (local:%s remote:%s)" % (sl.has_var(body, "local"), sl.has_var(body, "remote")), work=len(sl.nodes))
+        filt = [(i, cname(t)) for i, t in idioms.real_calls(body, live) if cname(t) in ("retain", "retain_mut", "dedup", "dedup_by", "dedup_by_key", "filter", "filter_map", "truncate", "drain", "remove", "swap_remove", "pop", "take", "skip", "take_while", "skip_while")
+                and re.search(r"(Vec|slice|Iterator|IntoIterator)", (t.get("callee") or "") + (t.get("trait") or ""))]
+        k = f.root + "|nothing-filtered"
+        if filt:
+            r.violation(k, cfg.loc(body, filt[0][0]), "merge_patches drops records from the merged patch (`%s`): committed events can be lost (byte-identical events made twice on purpose are legitimate)" % filt[0][1], work=len(live))
+        else:
+            r.ok(k, cfg.loc(body, j), "no record is removed from the merged patch", work=len(live))
         ext = [i for i, t in idioms.real_calls(body, live) if cname(t) in ("extend", "append", "extend_from_slice", "chain")]
         if ext:
             r.ok(f.root + "|concatenates", cfg.loc(body, ext[0]), "the two sides are concatenated (nothing filtered out)", work=1)
